@@ -17,27 +17,32 @@ FramesA == << FuA(U(5, 3, 13, 1), EvenCuts(12, 2)), FuA(U(5, 3, 13, 2), EvenCuts
 FramesB == << FuA(U(5, 3, 11, 21), EvenCuts(10, 2)), FuA(U(1, 1, 16, 22), EvenCuts(15, 3)), <<U(1, 2, 7, 23)>>,
               <<StapA(<<U(7, 3, 4, 24), U(8, 3, 3, 25)>>, 3)>> \o FuA(U(5, 3, 11, 26), EvenCuts(10, 2)),
               <<U(6, 0, 3, 27)>> \o FuA(U(1, 1, 9, 28), EvenCuts(8, 4)) >>
+\* packets arriving between frame A's survivors and frame B: damaged continuations that a receiver refuses
+AfterH264 == << <<>>, <<(<<124>>)>>, <<(<<124, 5, 9, 9>>)>>, <<(<<120, 0, 9, 1>>)>> >>       \* short FU-A, middle FU-A, STAP-A with a size beyond the payload
+AfterAV1 == << <<>>, <<(<<128, 127, 1>>)>>, <<(<<128, 255>>)>>, <<(<<144, 3>>)>>, <<(<<192, 2, 7, 7>>)>> >>   \* Z=1 with a length beyond the payload, bad LEB128, Z=1 W=1, Z=1 Y=1
 Garbage == << <<>>, <<(<<124>>)>>, <<(<<124, 5, 1, 2>>)>>, <<(<<124, 133, 9, 9>>)>>, <<(<<>>), <<28, 69, 7>>, <<60, 1>> >> >>
 H264Cases ==
   LET nA == Len(FramesA)  nB == Len(FramesB)  nG == IF Rich THEN Len(Garbage) ELSE 3 IN
   Flatten([ai \in 1..nA |->
     LET a == FramesA[ai]  nm == Pow2(Min(Len(a), MaxA)) IN
     [j \in 1..(nm * nB * nG * 2) |->
-       LET mask == (j - 1) % nm  bi == (((j - 1) \div nm) % nB) + 1  gi == (((j - 1) \div (nm * nB)) % nG) + 1  avc == (j - 1) \div (nm * nB * nG) = 1 IN
+       LET mask == (j - 1) % nm  bi == (((j - 1) \div nm) % nB) + 1  gi == (((j - 1) \div (nm * nB)) % nG) + 1  avc == (j - 1) \div (nm * nB * nG) = 1
+           af == AfterH264[((mask + bi + gi) % Len(AfterH264)) + 1] IN
        [fam |-> "C15", kind |-> IF avc THEN "h264_avc" ELSE "h264", a |-> [src |-> "bytes", items |-> a], mask |-> mask,
-        garbage |-> Garbage[gi], b |-> [src |-> "bytes", items |-> FramesB[bi]], wellformed_b |-> TRUE,
-        class |-> "h264_" \o (IF Len(a) = 1 THEN "unfragmented_a" ELSE "fu" \o ToString(Len(a)) \o "_a") \o (IF gi > 1 THEN "_garbage" ELSE "")]]])
+        garbage |-> Garbage[gi], after |-> af, b |-> [src |-> "bytes", items |-> FramesB[bi]], wellformed_b |-> TRUE,
+        class |-> "h264_" \o (IF Len(a) = 1 THEN "unfragmented_a" ELSE "fu" \o ToString(Len(a)) \o "_a") \o (IF gi > 1 \/ af # <<>> THEN "_garbage" ELSE "")]]])
 Feed(pk, shape, len, salt, mtu) == [src |-> "feed", feed |-> [pkind |-> pk, shape |-> shape, len |-> len, salt |-> salt, mtu |-> mtu]]
 FeedCases ==
-  LET specs == << <<"av1", "av1", "obu", 30, 6>>, <<"av1", "av1", "obu_ext", 40, 8>>, <<"av1", "av1", "obu_nosize_last", 25, 5>>, <<"av1", "av1", "obu", 60, 16>>,
+  LET specs == << <<"av1", "av1", "obu", 30, 6>>, <<"av1", "av1", "obu_ext", 40, 8>>, <<"av1", "av1", "obu_nosize_last", 25, 5>>, <<"av1", "av1", "obu", 60, 16>>, <<"av1", "av1", "obu_frame_only", 50, 20>>,
                   <<"h264", "h264", "annexb3", 40, 8>>, <<"h264_avc", "h264", "annexb_mixed", 50, 12>>, <<"h264", "h264_nostap", "h264_slice", 30, 7>> >>
       nm == Pow2(MaxA) IN
   Flatten([si \in 1..Len(specs) |->
-    [j \in 1..(nm * 2 * 2) |->
-       LET sp == specs[si]  mask == (j - 1) % nm  bsalt == ((j - 1) \div nm) % 2  g == (j - 1) \div (nm * 2) IN
+    LET afs == IF specs[si][1] = "av1" THEN AfterAV1 ELSE AfterH264 IN
+    [j \in 1..(nm * 2 * 2 * Len(afs)) |->
+       LET sp == specs[si]  mask == (j - 1) % nm  bsalt == ((j - 1) \div nm) % 2  g == ((j - 1) \div (nm * 2)) % 2  af == afs[((j - 1) \div (nm * 4)) + 1] IN
        [fam |-> "C15", kind |-> sp[1], a |-> Feed(sp[2], sp[3], sp[4], 1, sp[5]), mask |-> mask,
-        garbage |-> IF g = 0 THEN <<>> ELSE << <<128, 1, 2>> >>, b |-> Feed(sp[2], sp[3], sp[4] - 7 * bsalt, 2 + bsalt, sp[5]), wellformed_b |-> TRUE,
-        class |-> sp[1] \o "_real_payloader" \o (IF g = 1 THEN "_garbage" ELSE "")]]])
+        garbage |-> IF g = 0 THEN <<>> ELSE << <<128, 1, 2>> >>, after |-> af, b |-> Feed(sp[2], sp[3], sp[4] - 7 * bsalt, 2 + bsalt, sp[5]), wellformed_b |-> TRUE,
+        class |-> sp[1] \o "_real_payloader" \o (IF g = 1 \/ af # <<>> THEN "_garbage" ELSE "")]]])
 Raw == H264Cases \o FeedCases
 CaseSeq == [i \in 1..Len(Raw) |-> Raw[i] @@ [case |-> i]]
 ASSUME WriteCases(CaseSeq) /\ PrintT(<<"CASES", Len(CaseSeq)>>)
